@@ -444,6 +444,15 @@ impl DnsCache {
             });
         }
 
+        // SRV, TXT and NSEC records that no PTR record points to (any more)
+        // expire like all others.
+        for map in [&mut self.srv, &mut self.txt, &mut self.nsec] {
+            map.retain(|_, records| {
+                records.retain(|r| !r.record.get_record().is_expired(now));
+                !records.is_empty()
+            });
+        }
+
         expired_instances
     }
 
